@@ -2,3 +2,5 @@
 #define WF_USTACK (0 <= stack.top1 && stack.top1 <= stack.top2 && stack.top2 <= stack.size && stack.used == stack.top1 + (stack.size - stack.top2))
 #define GHOST_STACK (g_size0 == stack.size && g_used0 == stack.used && g_top10 == stack.top1 && g_top20 == stack.top2)
 #define INTMAX 2147483647
+/* offset of the dwork pointer handed out, relative to the start of the user stack */
+#define DOFF ((char*)in_dworkptr - (in_work + g_skew))
